@@ -218,6 +218,16 @@ class Z:
             return ("err", type(ex).__name__)
         return self.contents(e)
 
+    def literal_in_raw(self, t):
+        """code points that reach Z3 when the caller passes the plain Python str <t> (solution(x, "..."), blocking clauses)"""
+        try:
+            e = self.bz._convert(to_str(t))
+        except Exception as ex:  # noqa
+            return ("err", type(ex).__name__)
+        if isinstance(e, str):     # handed on raw: z3py's own coercion (StringVal) is what Z3 will see
+            e = self.z3.StringVal(e, ctx=self.ctx)
+        return self.contents(e)
+
     def literal_out(self, t):
         """python str claripy extracts from a Z3 string value holding exactly <t>"""
         e = self.lit(t)
